@@ -340,6 +340,17 @@ def protoResume (s : St) : St :=
   let s := if !s.upgraded then dataReceived s 0 else s
   if !s.readingPaused && !s.msgQueuePaused && s.tPresent then { s with tPaused := false } else s
 
+/-- a reader resumed from `StreamReader._wait()` raises at once: its future was completed with the exception, or
+(sources that re-check `self._exception` after the wait — probed, `Gen.C05.waitRechecksException`) an exception
+was recorded between the normal wake-up and the resumption -/
+def resumeRaises (p : Payload) : Bool := p.wakeExc || (Gen.C05.waitRechecksException && p.exc)
+
+/-- what `request.read()` does next when resumed: normally it goes on reading (`.read :: rest`, which raises if an
+exception is recorded); a source that does *not* re-check reports a clean end of body — the error is lost — when it
+was woken by `feed_eof()` alone and `set_exception()` came before it ran -/
+def resumeProg (p : Payload) (rest : Prog) : Prog :=
+  if !resumeRaises p && p.chunks == 0 && p.eof && p.exc then rest else .read :: rest
+
 /-- `_read_nowait(-1)`: pop the `count` chunks present now; each pop re-enters the protocol -/
 def drainChunks (s : St) (i : Nat) : Nat → St
   | 0 => s
@@ -634,7 +645,7 @@ def runCb (s : St) (c : Cb) : St :=
         let p := getP s c.idx
         let s := setP s c.idx { p with waiter := .none }
         -- resumed inside `readany()`: unless the timeout struck, the chunks present now are popped first
-        let s := if !s.lingerTimedOut && p.chunks > 0 && !p.wakeExc then drainChunks (cancelLinger s) c.idx p.chunks else s
+        let s := if !s.lingerTimedOut && p.chunks > 0 && !resumeRaises p then drainChunks (cancelLinger s) c.idx p.chunks else s
         startRun (fuelOf s) s (.linger endT)
       | none => s
     | _ => s
@@ -648,8 +659,8 @@ def runCb (s : St) (c : Cb) : St :=
           let p := getP s c.idx
           -- resumed inside `readany()`: the chunks present now are popped before anything is re-checked
           let s := setP s c.idx { p with waiter := .none }
-          let s := if p.chunks > 0 && !p.wakeExc then drainChunks s c.idx p.chunks else s
-          some (runProg (fuelOf s) s (.read :: rest))
+          let s := if p.chunks > 0 && !resumeRaises p then drainChunks s c.idx p.chunks else s
+          some (runProg (fuelOf s) s (resumeProg p rest))
         | none => none
       | _ => none
     match s' with
